@@ -73,6 +73,14 @@ CHECKS['C10'] = dict(
     note='Trusted as for C01/C09; conversion-exactly-once of shared instances is checked on the implementation only.',
     design='7 (C10)')
 
+CHECKS['C14'] = dict(
+    technique='Lean 4 model of Python == / ParsedObject.__hash__ / _hash / _asdict / _replace on result trees with theorems (equivalence relation, same class and equal fields, equal => equal hash through lists/tuples/dicts, _replace) + pairwise differential correspondence on pools of equal / almost-equal trees',
+    text=('Proof: C14_eq_equivalence (reflexive, symmetric, transitive, incl. True == 1 and containers), C14_eq_iff_same_class_and_fields, C14_obj_ne_other, C14_eq_implies_hash_eq (for every choice of builtin hash functions whose tuple hash '
+          'depends only on element hashes; the "same path through _hash" lemma is hashable_congr), C14_asdict_order, C14_replace. Tie: the Lean peq decides == for all ordered pairs of pools of real objects built to contain '
+          'equal-but-not-identical and almost-equal members; hash consistency, sets, _asdict, _replace (incl. explicit None) are compared. PARTIAL: copy.deepcopy, pickle and eval(repr(x)) have no model and are exercised on the implementation only.'),
+    note='Trusted: Lean kernel; floats/NaN outside the model; dicts canonicalised by key order; CPython builtin hash as a parameter.',
+    design='7 (C14)')
+
 NOT_YET = {
 }
 
